@@ -80,25 +80,25 @@ ASSUMPTIONS = [
 ]
 MIN = {
     'quick': {'lock_cases': 700, 'lock_convergence_verdicts': 650,
-              'pub_fail_xlock': 800, 'pub_fail_slock': 800,
-              'pub_fail_injected': 800, 'atomic_batches': 130,
+              'pub_fail_xlock': 700, 'pub_fail_slock': 700,
+              'pub_fail_injected': 700, 'atomic_batches': 130,
               'fault_positions_raise': 900, 'fault_positions_kill': 250,
               'threshold_cases': 12, 'threshold_recoveries': 12,
               'sync_checks_no_failure': 500,
               'batch_changed_pri': 120},
-    'thorough': {'lock_cases': 6000, 'lock_convergence_verdicts': 5500,
-                 'pub_fail_xlock': 7000, 'pub_fail_slock': 7000,
-                 'pub_fail_injected': 7000, 'atomic_batches': 1100,
-                 'fault_positions_raise': 10000,
-                 'fault_positions_kill': 10000, 'threshold_cases': 100,
-                 'threshold_recoveries': 100,
-                 'sync_checks_no_failure': 5000, 'batch_changed_pri': 1000},
+    'thorough': {'lock_cases': 4600, 'lock_convergence_verdicts': 4000,
+                 'pub_fail_xlock': 4300, 'pub_fail_slock': 4300,
+                 'pub_fail_injected': 4300, 'atomic_batches': 800,
+                 'fault_positions_raise': 7000,
+                 'fault_positions_kill': 7000, 'threshold_cases': 80,
+                 'threshold_recoveries': 80,
+                 'sync_checks_no_failure': 5000, 'batch_changed_pri': 700},
 }
 NPAT = 256
 # case kinds are interleaved in cycles of 59 indices: 1 threshold case,
 # 10 atomicity cases, 48 lock-pattern cases (so 16 cycles = 3 x 256 patterns)
 CYCLE = 59
-CYCLES = {'quick': 16, 'thorough': 128}
+CYCLES = {'quick': 16, 'thorough': 96}
 CASE_TIMEOUT = 180
 
 
@@ -627,7 +627,14 @@ class History:
         tries0 = w.mgr.pub_dao.n_tries
         try:
             CTL.begin_call()
-            w.mgr.process_queued_ops()
+            try:
+                w.mgr.process_queued_ops()
+            except sqlite3.Error as exc:
+                # the private write itself failed (not injected): the
+                # generated batch is not one the schema accepts
+                ctx.count('discard_private_write_rejected_'
+                          + type(exc).__name__)
+                raise StopHistory()
             pub_failed = w.mgr.pub_dao.n_tries > tries0
             pub_wrote = any(k == 'commit' for k, _, _ in CTL.log['pub'])
             log_pri = expand(CTL.log['pri'])
